@@ -175,11 +175,20 @@ IngressDrop(p, f) == \/ ("NO_RECV" \in cfg[p] /\ ~IsStp(f))
                      \/ ("NO_RECV_STP" \in cfg[p] /\ IsStp(f))
                      \/ (fragDrop /\ f.et = "ip" /\ f.frag # 0)
 
+\* Outside the model: rewriting the IPv4 addresses of a FIRST fragment (the
+\* transport checksum it carries would have to be patched incrementally) and
+\* rewriting its transport ports (OpenFlow 1.0 gives fragments no ports for
+\* matching; whether the actions reach into the first fragment is left open).
+NwRewrite(A) == \E i \in DOMAIN A : A[i].t \in {"set_nw_src", "set_nw_dst", "set_tp_src", "set_tp_dst"}
+InModel(f, A) == ~(f.et = "ip" /\ f.frag = 1 /\ NwRewrite(A))
+UsesTableP(A) == \E i \in DOMAIN A : A[i].t = "output" /\ A[i].n = TABLE
+
 \* A frame of shape s arrives on port p.  (Frames arriving on a port that is
 \* administratively down are outside the model.)
 Rx(p, s, c) ==
   LET f == Shape[s] IN
   /\ "PORT_DOWN" \notin cfg[p]
+  /\ InModel(f, flow)
   /\ UNCHANGED <<cfg, hasFlow, flow, fragDrop>>
   /\ IF IngressDrop(p, f)
      THEN /\ c \in DropCount
@@ -195,6 +204,8 @@ Rx(p, s, c) ==
 
 PacketOut(ip, s, A) ==
   LET r == RunP(A, 1, Shape[s], ip) IN
+  /\ InModel(Shape[s], A)
+  /\ (UsesTableP(A) => InModel(Shape[s], flow))
   /\ HeldOK(held, r)
   /\ UNCHANGED <<cfg, hasFlow, flow, fragDrop>>
   /\ stats' = AfterTx(stats, r.em)
@@ -205,6 +216,7 @@ PacketOut(ip, s, A) ==
 \* exactly as it was when it was handed to the controller
 PacketOutBuf(k, A) ==
   /\ k \in 1..Len(held)
+  /\ InModel(held[k].f, A)
   /\ LET r == RunP(A, 1, held[k].f, held[k].p)
          h == Without(held, k) IN
      /\ HeldOK(h, r)
